@@ -255,10 +255,11 @@ impl SwiftField for Field56Intermediary {
                 let field = Field56D::parse(value)?;
                 Ok(Field56Intermediary::D(field))
             }
-            _ => {
-                // No variant specified, fall back to default parse behavior
-                Self::parse(value)
-            }
+            // No option letter given: fall back to content-based detection
+            None => Self::parse(value),
+            Some(other) => Err(ParseError::InvalidFormat {
+                message: format!("Field 56 has no option '{}'", other),
+            }),
         }
     }
 
@@ -317,10 +318,11 @@ impl SwiftField for Field56IntermediaryAD {
                 let field = Field56D::parse(value)?;
                 Ok(Field56IntermediaryAD::D(field))
             }
-            _ => {
-                // No variant specified, fall back to default parse behavior
-                Self::parse(value)
-            }
+            // No option letter given: fall back to content-based detection
+            None => Self::parse(value),
+            Some(other) => Err(ParseError::InvalidFormat {
+                message: format!("Field 56 has no option '{}'", other),
+            }),
         }
     }
 
